@@ -62,17 +62,31 @@
        all registers stay well-formed (len <= cap, slots [0,len) live), same
        capacity, whether the call returned or panicked
                                                      C05_step_safe
+     "every state reachable by any sequence of Map/Set/entry/iterator
+      operations, for all capacities": EVERY operation of the interpreter
+       (one constructor of Exec.op per API entry point: entry chains, drains,
+       iterators, clone, from_iter, set algebra, fmt, serde, ...), honest
+       script, returned or panicked: keys of all four registers stay pairwise
+       unequal                                       C05_step_uniq
+       along any history                             C05_run_uniq
+       from fresh containers of any capacities: unique keys, number of stored
+       entries = len(), len() <= capacity()          C05_run_uniq_init
+       every yielded key looks up to its pair        C05_yielded_lookup
+       capacities constant along a run               C05_run_final_caps
 
    PARTLY / NOT COVERED BY A THEOREM (left to the correspondence check)
-     - key uniqueness (Uniq) is proved along histories of the operations of
-       `dop` (insert, insert_key_value, checked_insert, get, get_mut,
-       get_key_value, contains_key, index, index_mut, remove, remove_entry,
-       retain, clear) and `sop` (insert, replace, contains, get, remove, take,
-       retain, clear, extend).  Entry-API, drain, clone, from_iter and
-       iterator operations are not constructors of dop/sop: for them this file
-       only gives WF (C05_step_safe); that they keep keys unique follows from
-       the per-operation list-machine lemmas of properties C11 (entry),
-       C16 (bulk), C15 (clone), C10 (drain), not from a single history theorem;
+     - CLOSED: key uniqueness along histories used to be proved only for the
+       operations of `dop` / `sop` (C05_run_refines_state_new,
+       C05_srun_refines_state).  C05_step_uniq / C05_run_uniq /
+       C05_run_uniq_init now give it for every constructor of Exec.op (entry
+       API, drain, clone, from_iter, iterators, algebra, serde included), for the
+       interpreter's key type and honest scripts (sc_adv = false: == answers
+       class equality; sc_fk = 0: no injected fault).  What is still left to the
+       correspondence check: histories with an injected user panic (fault kinds
+       1-4) keep WF (C05_step_safe) but uniqueness after them is not stated
+       here; and the unsafe insert_unchecked is excluded from C05_run_uniq /
+       C05_run_uniq_init (safe_op) - a single insert_unchecked whose contract
+       holds (contract_ok) is covered by C05_step_uniq;
      - uniqueness needs Lawful (with a lying == duplicates can be stored:
        Props/C17.v); the remaining clauses (len <= cap, number of yielded
        entries = len) hold for every environment (C05_step_safe,
@@ -83,7 +97,7 @@
    ========================================================================== *)
 Require Import Model.Base Model.Slots Model.MapOps Model.SetOps Model.EntryOps Model.Fmt Model.Exec.
 Require Import Proofs.Hoare Proofs.Inv Proofs.Spec Proofs.Lawful Proofs.IterSpec Proofs.EqClone
-               Proofs.Dict Proofs.SetDict Proofs.FmtSerde Proofs.ExecSafe Proofs.Legacy.
+               Proofs.Dict Proofs.SetDict Proofs.FmtSerde Proofs.ExecSafe Proofs.ExecUniq Proofs.Legacy.
 From Coq Require Import Permutation.
 
 (* -------------------------------------------------------------------------- *)
@@ -190,6 +204,71 @@ Proof. exact step_safe. Qed.
 Print Assumptions C05_step_safe.
 
 (* -------------------------------------------------------------------------- *)
+(* key uniqueness along EVERY history of the interpreter (Proofs/ExecUniq.v):
+   all operations - entry API, drains, iterators, clone, from_iter, set algebra,
+   serde included - under an honest script (== is class equality, no injected
+   fault); container-raised panics (overflow, missing index, duplicate disjoint
+   keys) are part of the histories.
+     UniqX x := Uniq kcls (Spec.elems (xm0 x)) /\ Uniq kcls (Spec.elems (xm1 x)) /\
+                Uniq kcls (Spec.elems (xs0 x)) /\ Uniq kcls (Spec.elems (xs1 x))
+     run_final debug sc ops x := the register file after running ops from x
+       (run_final debug sc (o :: t) x = run_final debug sc t (snd (step debug sc o x))) *)
+Theorem C05_step_uniq :
+  forall (debug : bool) (sc : script) (o : op) (x : xworld),
+  honest sc ->
+  WFx x ->
+  contract_ok debug o x ->
+  UniqX x ->
+  UniqX (snd (step debug sc o x)).
+Proof. exact step_uniq. Qed.
+Print Assumptions C05_step_uniq.
+
+Theorem C05_run_uniq :
+  forall (debug : bool) (sc : script) (ops : list op) (x : xworld),
+  honest sc ->
+  WFx x ->
+  UniqX x ->
+  Forall safe_op ops ->
+  WFx (run_final debug sc ops x) /\ UniqX (run_final debug sc ops x).
+Proof. exact run_uniq. Qed.
+Print Assumptions C05_run_uniq.
+
+(* every state reachable from four fresh containers of ANY capacities: keys
+   pairwise unequal, number of stored (= yielded) entries = len(), len() <= capacity() *)
+Theorem C05_run_uniq_init :
+  forall (debug : bool) (sc : script) (ops : list op) (c0 c1 c2 c3 : N),
+  honest sc ->
+  Forall safe_op ops ->
+  let x := run_final debug sc ops (init_world c0 c1 c2 c3) in
+  WFx x /\
+  UniqX x /\
+  (length (Spec.elems (xm0 x)) = len (xm0 x) /\ len (xm0 x) <= cap (xm0 x)) /\
+  (length (Spec.elems (xm1 x)) = len (xm1 x) /\ len (xm1 x) <= cap (xm1 x)) /\
+  (length (Spec.elems (xs0 x)) = len (xs0 x) /\ len (xs0 x) <= cap (xs0 x)) /\
+  (length (Spec.elems (xs1 x)) = len (xs1 x) /\ len (xs1 x) <= cap (xs1 x)).
+Proof. exact run_uniq_init. Qed.
+Print Assumptions C05_run_uniq_init.
+
+(* ... and in such a state every yielded key looks up to the pair yielded with it *)
+Theorem C05_yielded_lookup :
+  forall (V : Type) (m : map key V) (p : key * V),
+  WF m ->
+  Uniq kcls (Spec.elems m) ->
+  In p (Spec.elems m) ->
+  lookup kcls (Spec.elems m) (kcls (fst p)) = Some p.
+Proof. exact (@yielded_lookup). Qed.
+Print Assumptions C05_yielded_lookup.
+
+(* the capacities never change along a run (any script) *)
+Theorem C05_run_final_caps :
+  forall (debug : bool) (sc : script) (ops : list op) (x : xworld),
+  WFx x ->
+  Forall safe_op ops ->
+  caps (run_final debug sc ops x) = caps x.
+Proof. exact run_final_caps. Qed.
+Print Assumptions C05_run_final_caps.
+
+(* -------------------------------------------------------------------------- *)
 (* non-vacuity                                                                *)
 Example C05_example_lawful_map :
   Lawful (env_map {| sc_adv := false; sc_seed := 0; sc_fk := 0; sc_fa := 0 |}) kcls qcls.
@@ -252,3 +331,26 @@ Example C05_example_set_after_panics :
   | None => False
   end.
 Proof. vm_compute. split; reflexivity. Qed.
+
+(* C05_run_uniq_init on a concrete history over two Map registers of capacity 2
+   (honest script, release build): insert, entry(k).or_insert(v), an insert that
+   overflows (container-raised panic), register 1 := register 0 .clone(), drain
+   register 0 (one taken, rest dropped), overwrite class 6 in the clone.
+   The clone holds two entries with the distinct classes 5 and 6, len = 2. *)
+Example C05_example_run_final :
+  let sc0 := {| sc_adv := false; sc_seed := 0; sc_fk := 0; sc_fa := 0 |} in
+  let ops := [OInsert 0 (mk 1 5) (mv 2 7); OEntry 0 (mk 3 6) 0 (mv 4 8);
+              OInsert 0 (mk 5 7) (mv 6 9); OClone 0 1; ODrain 0 1 0;
+              OInsert 1 (mk 7 6) (mv 8 1)] in
+  let x := run_final false sc0 ops (init_world 2 2 0 0) in
+  honest sc0 /\ Forall safe_op ops /\
+  Spec.elems (xm0 x) = [] /\
+  Spec.elems (xm1 x) = [(mk 100000 5, mv 100001 7); (mk 100002 6, mv 8 1)] /\
+  len (xm1 x) = 2.
+Proof.
+  cbv zeta. split; [exact (conj eq_refl eq_refl)|].
+  split; [repeat constructor|]. vm_compute. repeat split; reflexivity.
+Qed.
+
+Example C05_example_UniqX_init : UniqX (init_world 2 2 0 0).
+Proof. exact (init_UniqX 2 2 0 0). Qed.
